@@ -854,8 +854,14 @@ func (ii *InterpInfo) evalClauses() []string {
 
 // ExploreEvalClause explores eval for one node type.
 func ExploreEvalClause(p *Prog, nodeType string, entryRaised bool) (*InterpModel, *Machine) {
+	return exploreEvalClause(p, nodeType, entryRaised, false)
+}
+
+// exploreEvalClause with stores=true also reports writes to struct fields as events (state kept by the interpreter).
+func exploreEvalClause(p *Prog, nodeType string, entryRaised, stores bool) (*InterpModel, *Machine) {
 	ii := p.Interp()
 	m := NewInterpModel(p, "eval/"+strings.TrimPrefix(nodeType, "*ast."))
+	m.EmitTests = stores
 	params := []AV{Sym("i"), Sym("e"), Sym("env"), Sym("isRepl")}
 	mc := m.Explore(ii.Eval, params, func(st *State) {
 		st.Facts["type:e"] = StrV(nodeType)
